@@ -46,7 +46,7 @@ ASSUMPTIONS = [
     "law tolerances: 4 ulp of the largest argument for range laws, 1e-12 "
     "relative for multiples, 1e-9 relative for inverse pairs (vf/c15_laws.py)"]
 MIN_COUNTERS = {
-    'quick': {'lift_method_evaluations': 8000, 'lift_builtin_evaluations': 8000,
+    'quick': {'lift_method_evaluations': 5000, 'lift_builtin_evaluations': 5000,
               'lift_value_agreements': 6000, 'law_samples': 20000,
               'max_method_entry_points': 100, 'max_builtin_entry_points': 100,
               'meta_checks': 100},
